@@ -30,6 +30,8 @@ type limitSite struct {
 var incRe = regexp.MustCompile(`^\(*([A-Za-z_][A-Za-z0-9_]*)(?: \+ 1\))+$`)
 
 func runC05(c *core.Ctx) {
+	c.Rule("FMTSTR", "printf-style calls have constant format strings")
+	checkFormatStrings(c, "FMTSTR", []string{"outputs", "cmd", "execution", "physical", "logical", "datasources", "functions", "table_valued_functions", "aggregates", "octosql", "helpers"})
 	c.Rule("PARSECOV", "no clause the grammar accepts is silently ignored by the parser")
 	checkParserCoverage(c, "PARSECOV")
 	c.Rule("RETRFLAG", "a node that retracts rows of its own declares NoRetractions false")
@@ -106,7 +108,7 @@ func runC05(c *core.Ctx) {
 			}
 		}
 	}
-	c.Floor("ABS6", 4, "Limit.Run, produceOrderByItems, two printer loops")
+	c.Floor("ABS6", 3, "Limit.Run, produceOrderByItems, the table printer's loop (live updates and the final table share it)")
 	c.Rule("LIMNEG", "every limit site rejects a negative limit")
 	checkNegativeLimit(c, ids)
 	checkSelection(c)
